@@ -300,6 +300,10 @@ func (e *executor) executeString() (string, error) {
 // stderr contents. It adds the `--git-dir` argument if the repository has a
 // path set.
 func (e *executor) execute() (io.Reader, io.Reader, error) {
+	verifArgs := e.args
+	if err := verifExecHook(e); err != nil {
+		return &bytes.Buffer{}, bytes.NewBufferString(err.Error()), err
+	}
 	if e.r.gitDirPath != "" && !e.unsetGitDir {
 		e.args = append([]string{"--git-dir", e.r.gitDirPath}, e.args...)
 	}
@@ -324,6 +328,7 @@ func (e *executor) execute() (io.Reader, io.Reader, error) {
 	}
 
 	err := cmd.Run()
+	err = verifExecDoneHook(e, verifArgs, err)
 
 	return &stdOut, &stdErr, err
 }
